@@ -567,3 +567,70 @@ def r06e(model: Model, rr: RuleResult):
         rr.ok("the gradient is defined with the same transform that is in the key")
     else:
         rr.bad_shape(gfi, dfn[0] if dfn else None, "the gradient is defined with a transform other than the one in the reuse key", construct="_apply_gradient_paint: _define_gradient transform")
+
+
+@RULES.rule("C19", "R19d", "OT-SVG grouping: every reuse hit joins the two glyphs at once; per-glyph state is not carried between loops", floor=2)
+def r19d(model: Model, rr: RuleResult):
+    gg = model.func("svg", "_glyph_groups")
+    cfg = cfg_of(gg)
+    from ..model import parent_map as _pm19
+    pm = _pm19(gg.node)
+    un = [c for c in calls_in(gg) if callee_tail(c) == "union" and "reuse_groups" in norm(c.func)]
+    tr = find_calls(gg, "try_reuse")
+    if not un or len(tr) != 1:
+        rr.bad_shape(gg, gg.node, "_glyph_groups: union / try_reuse not found", construct="_glyph_groups: union")
+        return
+
+    def loops_of(n):
+        out = []
+        while n in pm:
+            n = pm[n]
+            if isinstance(n, ast.For):
+                out.append(n)
+        return out
+    tl = loops_of(tr[0])
+    good = [c for c in un if tl and loops_of(c)[:1] == tl[:1]]
+    if good:
+        rr.ok("reuse_groups.union(glyph, donor glyph) is called in the traversal loop, once per reuse hit")
+    else:
+        c = un[0]
+        lp = loops_of(c)
+        over = norm(lp[0].iter) if lp else "?"
+        if lp and ".items()" in over:
+            rr.bad(gg, c, f"the unions are made after the traversal from a mapping {over} that holds ONE donor glyph per glyph: a glyph that shares shapes with two different "
+                   f"earlier glyphs is grouped with the last one only, the other donor's shape is stored again in another document", construct="_glyph_groups: unions from a one-donor-per-glyph mapping")
+        else:
+            rr.bad_shape(gg, c, "reuse_groups.union is not called per reuse hit in the traversal loop", construct="_glyph_groups: union placement")
+    # no value computed per iteration of one loop is read in a LATER loop (it would be the last iteration's value)
+    stale = []
+    fors = [n for n in walk_body(gg) if isinstance(n, ast.For)]
+    for n in ast.walk(gg.node):
+        if isinstance(n, ast.Name) and isinstance(n.ctx, ast.Load):
+            ul = loops_of(n)
+            if not ul:
+                continue
+            try:
+                ds = cfg.reaching(cfg.node_for(n), n.id)
+            except Exception:
+                continue
+            if not ds or any(d.kind not in ("assign",) or d.stmt is None for d in ds):
+                continue
+            dl = [loops_of(d.stmt) for d in ds]
+            if all(l_ and l_[-1] is not ul[-1] and not any(x is l_[-1] for x in ul) for l_ in dl):
+                # bound only inside a loop that does not contain this read; a search loop that ends in `break` right after the binding is the accepted idiom
+                def breaks_after(stmt):
+                    par = pm.get(stmt)
+                    for f_ in ("body", "orelse", "finalbody"):
+                        blk = getattr(par, f_, None)
+                        if isinstance(blk, list) and stmt in blk:
+                            return any(isinstance(x, ast.Break) for x in blk[blk.index(stmt) + 1:])
+                    return False
+                ok_break = all(breaks_after(d.stmt) for d in ds)
+                if not ok_break:
+                    stale.append((n, ds[0]))
+    if stale:
+        n, d = stale[0]
+        rr.bad(gg, n, f"`{n.id}` is read inside a loop but only bound inside an EARLIER loop ({short(d.stmt, 60)}): every iteration sees the value the earlier loop ended with "
+               f"(with a coloured .notdef in the sources every layer is registered as not reusable)", construct=f"_glyph_groups: stale per-iteration value {n.id}")
+    else:
+        rr.ok("no per-iteration value of one loop is read in a later loop")
